@@ -11,7 +11,7 @@ import (
 )
 
 var repo = flag.String("repo", "/repo", "repository root")
-var allExtractors = []string{"wire", "classify", "sites", "boxconsts", "adapter", "blocking", "net"}
+var allExtractors = []string{"wire", "classify", "sites", "boxconsts", "adapter", "blocking", "net", "ps"}
 
 var outDir = flag.String("out", "/verif/lean/TSSVerif/Gen", "output directory for generated Lean files")
 
@@ -41,6 +41,8 @@ func main() {
 			name, body = "Blocking", genBlocking()
 		case "net":
 			name, body = "Net", genNet()
+		case "ps":
+			name, body = "Ps", genPs()
 		default:
 			fmt.Fprintf(os.Stderr, "unknown extractor %q\n", w)
 			os.Exit(2)
